@@ -76,6 +76,24 @@ def compare(lock, now):
     return stale
 
 
+def package_digests(repo):
+    """one digest per python file of the package (normalised AST) and per data file: a change ANYWHERE in the package may matter to any property"""
+    root = Path(repo) / "src" / "pygaps"
+    out = {}
+    for f in sorted(root.rglob("*")):
+        if not f.is_file() or "__pycache__" in f.parts or f.name == "_version.py":
+            continue
+        rel = str(f.relative_to(Path(repo)))
+        if f.suffix == ".py":
+            try:
+                out[rel] = hashlib.md5(ast.dump(_strip(ast.parse(f.read_text())), include_attributes=False).encode()).hexdigest()
+            except SyntaxError:
+                out[rel] = "syntax-error"
+        elif f.suffix in (".json", ".db", ".csv"):
+            out[rel] = hashlib.md5(f.read_bytes()).hexdigest()
+    return out
+
+
 def load_lock(verif):
     p = Path(verif) / "harness" / "stamps.lock.json"
     return json.loads(p.read_text()) if p.exists() else {}
